@@ -99,7 +99,7 @@ Migrate(val, sender) ==
 
 MNext ==
     \/ Store
-    \/ \E val \in {0, 1}, s \in Senders, f \in {0, 5, 7}, lab \in {"", "lbl"}, adm \in {"", "<empty>"} \cup Senders, salt \in {"", "s1"} :
+    \/ \E val \in {0, 1}, s \in Senders, f \in {0, 5, 7}, lab \in {"", "lbl", " l bl "}, adm \in {"", "<empty>"} \cup Senders, salt \in {"", "s1"} :
            Instantiate(val, s, f, lab, adm, salt)
     \/ \E pm \in MethodsOfKind("exec"), val \in {0, 1}, s \in Senders, f \in {0, 3, 7} : Exec(pm, val, s, f)
     \/ \E pm \in MethodsOfKind("query"), val \in {0, 1} : Query(pm, val)
